@@ -116,7 +116,8 @@ Inductive test :=
 | TPeekReg (r : nat)
 | TRegEq (r : nat) (v : Z)
 | TRegGe (r : nat) (v : Z)
-| TSl (i : nat) (c : cls).      (* i-th char of source[position..] satisfies c — GraphQL peek_next *)
+| TSl (i : nat) (c : cls)       (* i-th char of source[position..] satisfies c — GraphQL peek_next *)
+| TAh (i : nat) (c : cls).      (* i-th char of a CLONE of the character iterator satisfies c — the proposed repair of peek_next *)
 
 Inductive prog :=
 | Ret (kind : Z)                (* build the token: slices input[start..pos] *)
@@ -186,6 +187,7 @@ Section Machine.
     | TRegEq r v => Done (getr st r =? v)
     | TRegGe r v => Done (v <=? getr st r)
     | TSl i c => o <- sl st i ;; Done (match o with Some x => ceval c x | None => false end)
+    | TAh i c => l <- ahead st ;; Done (match nth_error l i with Some x => ceval c x | None => false end)
     end.
 
   (** pos += current_char().len_utf8()  (Byte) / chars.next(), position += 1 (Iter) *)
